@@ -398,15 +398,18 @@ func signature(sc *scen, what string) string {
 	case "ts":
 		return "timestamp:" + sc.Ts.Prec + ":" + digitsText(sc.Ts.Neg, sc.Ts.Digits) + ":" + what
 	}
+	// generic: which component came out wrong, and which sections carried escapes/special characters
+	// (the witness has the exact line and atoms)
+	seen := map[string]bool{}
 	var parts []string
 	for _, f := range sc.Foci {
-		var as []string
-		for _, a := range f.Atoms {
-			as = append(as, a.M+"-"+a.C)
+		if !seen[f.Sec] {
+			seen[f.Sec] = true
+			parts = append(parts, f.Sec)
 		}
-		parts = append(parts, f.Sec+"["+strings.Join(as, ",")+"]")
 	}
-	return "escape-handling:" + strings.Join(parts, "+") + ":" + what
+	sort.Strings(parts)
+	return "escape-handling:" + what + "-differs:special-characters-in-" + strings.Join(parts, "+")
 }
 
 type runner struct {
